@@ -338,7 +338,7 @@ def _iso(ms: int) -> str:
     return _dt.datetime.fromtimestamp(ms / 1000.0, tz=_dt.timezone.utc).isoformat()
 
 
-def gen_world(rng: random.Random, logical_sched: bool = False) -> dict:
+def gen_world(rng: random.Random, logical_sched: bool = False, parallel: bool = False) -> dict:
     nn = rng.choice([3, 4, 5, 8])
     words = rng.sample(WORDS, nn)
     nodes = [[f"n:{w}", w] for w in words]
@@ -373,6 +373,26 @@ def gen_world(rng: random.Random, logical_sched: bool = False) -> dict:
                   "promotion": {"enabled": rng.random() < 0.3}},
         "scheduler": {"enabled": sched},
     }
+    if parallel:
+        # open the parallel gates: T1 and T2 thread fan-out, >= 2 memory shards, retrieval through the cluster tier with
+        # clusters_top_m below the number of clusters, explicit aux.cluster_id, several owners
+        owners = agents + ["world"] if len(agents) > 1 else ["a1", "a2", "world"]
+        clusters = ["cA", "cB", "cC", "cD", "cE", "cF"][: rng.choice([4, 5, 6])]
+        eps = []
+        for i in range(rng.choice([8, 10, 12, 14])):
+            ms = BASE_MS - rng.choice([0, 1, 2, 40, 40]) * 86400000
+            ep = {"id": f"ep{i}", "text": " ".join(rng.choice(words + WORDS[:3]) for _ in range(rng.choice([2, 3, 4]))),
+                  "owner": rng.choice(owners), "ts": _iso(ms).replace("+00:00", "Z"), "tags": [],
+                  "importance": rng.choice([0.0, 0.5, 1.0])}
+            if rng.random() < 0.85:
+                ep["aux"] = {"cluster_id": rng.choice(clusters)}
+            eps.append(ep)
+        cfg["perf"] = {"enabled": True, "parallel": {"enabled": True, "t1": True, "t2": True, "max_workers": rng.choice([2, 3, 4])}}
+        cfg["t2"].update({"clusters_top_m": rng.choice([1, 1, 1, 2]), "k_retrieval": rng.choice([5, 10, 10]),
+                          "exact_recent_days": rng.choice([1, 1, 30]), "sim_threshold": rng.choice([-1.0, -1.0, 0.0]),
+                          "owner_scope": rng.choice(["any", "any", "any", "agent"]),
+                          "tiers": rng.choice([["exact_semantic", "cluster_semantic", "archive"], ["cluster_semantic", "archive"],
+                                               ["cluster_semantic"], ["cluster_semantic"]])})
     if logical_sched:
         # scheduler on; only LOGICAL slice budgets can fire (t1_pops/t1_iters/t2_k/t3_ops are compared with `==`, small values
         # are hit by these worlds); quantum_ms/wall_ms are far beyond anything the adversarial clocks of `LOGICAL_CLOCKS` reach,
@@ -384,7 +404,7 @@ def gen_world(rng: random.Random, logical_sched: bool = False) -> dict:
                                         "t3_ops": rng.choice([1, 2, 2])}}
     if rng.random() < 0.3:
         cfg["t3"] = {"allow_reflection": True}
-    if rng.random() < 0.2:
+    if rng.random() < 0.2 and not parallel:
         # T1 fan-out over a thread pool (thread timing); T2 fan-out is left off (it raises on this tree: DESIGN §5 row 9)
         cfg["perf"] = {"enabled": True, "parallel": {"enabled": True, "t1": True, "t2": False, "max_workers": rng.choice([2, 4])}}
     spec: Dict[str, Any] = {"cfg": cfg, "graph": {"nodes": nodes, "edges": edges}, "episodes": eps}
@@ -396,7 +416,7 @@ def gen_world(rng: random.Random, logical_sched: bool = False) -> dict:
     for i in range(nt):
         ms = BASE_MS + 1000 * i
         turns.append({"agent": rng.choice(agents), "text": rng.choice(texts), "now_ms": ms, "now": _iso(ms)})
-    return {"spec": spec, "turns": turns, "sched": sched, "logical_sched": logical_sched}
+    return {"spec": spec, "turns": turns, "sched": sched, "logical_sched": logical_sched, "parallel": parallel}
 
 
 #: clocks for the logical-budget scheduler cases: per-reading steps of 0.05-0.5 s (tens of seconds per turn at most,
@@ -417,7 +437,10 @@ def variants_for(rng: random.Random, case: dict, tier: str) -> Tuple[dict, List[
     hs = [1, rng.randrange(2, 2 ** 31)]
     clocks = [{"kind": "const", "t0": 1.0e6}, {"kind": "creep"}, {"kind": "jump", "step": 50.0}, {"kind": "jump", "step": 4.0e7, "t0": 1.0e9},
               {"kind": "back", "step": 1000.0}, {"kind": "chaos", "step": 1.0e5, "seed": rng.randrange(1000)}]
-    vs = [{"name": "hash", "hashseed": hs[0], "clock": bclk, "warm": 0},
+    if case.get("parallel"):
+        hs += [rng.randrange(2, 2 ** 31) for _ in range(2 if tier == "quick" else 4)]
+    vs = [{"name": "hash", "hashseed": h, "clock": bclk, "warm": 0} for h in hs[2:]] + \
+         [{"name": "hash", "hashseed": hs[0], "clock": bclk, "warm": 0},
           {"name": "hash", "hashseed": hs[1], "clock": bclk, "warm": 0},
           {"name": "warm", "hashseed": 0, "clock": bclk, "warm": 1}]
     # always at least one clock with macroscopic steps (a leaked elapsed value rounds to 0.0 under const/creep)
@@ -649,6 +672,12 @@ def _nontrivial_tags(case: dict, base: dict) -> List[str]:
             t.add("gel")
         if ((case["spec"].get("cfg") or {}).get("perf") or {}).get("enabled"):
             t.add("t1_parallel")
+        if case.get("parallel"):
+            for l in bytes.fromhex(base["logs"].get("t2.jsonl", "")).decode().splitlines():
+                r = json.loads(l)
+                t.add("t2_parallel_gate_open")
+                if "cluster_semantic" in (r.get("tier_sequence") or []):
+                    t.add("cluster_tier")
         if "t3_reflection.jsonl" in base["logs"]:
             t.add("reflection")
         if len({tt["agent"] for tt in case["turns"]}) > 1:
@@ -666,7 +695,7 @@ def run_e2e(ctx: Ctx, comp: E2EComp, n: int) -> None:
     for c in ctx.load_corpus(comp.name):
         cases.append((c["case"], c["base"], [c["variant"]]))
     for i in range(n):
-        case = gen_world(rng, logical_sched=True) if i % 3 == 2 else comp.gen(rng, i)
+        case = gen_world(rng, logical_sched=True) if i % 3 == 2 else (gen_world(rng, parallel=True) if i % 3 == 1 else comp.gen(rng, i))
         base, vs = variants_for(rng, case, tier)
         cases.append((case, base, vs))
     for ci, (case, base, vs) in enumerate(cases):
@@ -753,6 +782,8 @@ SEEDED = {
         "import time, uuid\n"
         "def h(log):\n    t = time.time()\n    log('t1.jsonl', {'turn': 1, 'stamp': t})\n"
         "def k():\n    return {'id': str(uuid.uuid4())}\n"
+        "def shard(eps, n):\n    groups = [[] for _ in range(n)]\n    for e in eps:\n        groups[hash(str(e)) % n].append(e)\n    return groups\n"
+        "def probe(k):\n    try:\n        hash(k)\n        return True\n    except TypeError:\n        return False\n"
         "def fine(log):\n    t0 = time.perf_counter()\n    log('t1.jsonl', {'turn': 1, 'ms': round(time.perf_counter() - t0, 3)})\n"),
 }
 
@@ -770,7 +801,7 @@ def scanner_selftest(ctx: Ctx) -> None:
     got_s = {(s["func"], s["canon"]) for s in sites}
     got_r = {(r["func"], D.classify_read(r)[0]) for r in reads}
     want_s = {("f", "unordered"), ("g", "unordered"), ("ok", "sorted")}
-    want_r = {("h", "leak"), ("k", "leak"), ("fine", "volatile")}
+    want_r = {("h", "leak"), ("k", "leak"), ("fine", "volatile"), ("shard", "leak"), ("probe", "volatile")}
     ok = want_s <= got_s and want_r <= got_r
     ctx.record_case("scanner", {"seeded": sorted(SEEDED)}, ["selftest"])
     ctx.extra["scanner_selftest"] = {"ok": ok, "sites": sorted(map(list, got_s)), "reads": sorted(map(list, got_r))}
